@@ -79,6 +79,12 @@ func (wrr *WeightedRoundRobinStrategy) RemoveBackend(backend *Backend) {
 			// Remove the backend by swapping with the last element and truncating.
 			wrr.backends[i] = wrr.backends[len(wrr.backends)-1]
 			wrr.backends = wrr.backends[:len(wrr.backends)-1]
+			// The running weights were balanced against the old total weight.
+			// Start a fresh cycle, otherwise a survivor can be starved for many
+			// picks after a heavy backend is removed.
+			for _, rest := range wrr.backends {
+				rest.currentWeight = 0
+			}
 			return
 		}
 	}
